@@ -178,3 +178,5 @@ OUTSIDE = ("pre-states with more than %d accounts holding balances/allowances be
            "satisfying the invariant" % N)
 ASSUMPTIONS = ["verify_logo (logo byte scanning) is stubbed as a nondeterministic pure Result; name/symbol are concrete in instantiate",
                "Api::addr_validate is identity-or-error with an arbitrary fixed validity predicate per string"]
+
+SECOND_SOLVER = True      # thorough tier: every non-trivial obligation is re-discharged with cvc5
